@@ -20,7 +20,12 @@ Record obs := mkObs {
   o_global : health;
   o_links : list (N * cstate);
   o_out : out_obs;
-  o_calls : list N }.
+  o_calls : list N;
+  o_rt : option (bool * (health * list (N * cstate))) }.
+(** [o_rt]: Some (changed, (global, links)) when, after this event, the harness persisted the
+    engine's ConnectivityStates with serde_json, restored it, and put the restored value back
+    into the engine: [changed] = the restored value differed from the original, (global, links)
+    = the table as read after the restore.  The history then continues on the restored state. *)
 
 (** [c_ids]: IndexedInstruments::exchanges() in index order.  [c_start]: None = the engine as
     built (generate_empty_indexed_connectivity_states); Some (g, links) = connectivity fields
@@ -66,6 +71,14 @@ Definition start_engine (c : case) : engine :=
   | Some (g, ls) => mkEngine (mkConn g (combine (c_ids c) ls)) []
   end.
 
+(** persist / restore is the identity: nothing changed, and the table read back is [g], [l] *)
+Definition rt_matches (g : health) (l : list (N * cstate))
+                      (r : option (bool * (health * list (N * cstate)))) : bool :=
+  match r with
+  | None => true
+  | Some (changed, (g', l')) => negb changed && health_eqb g g' && entries_eqb l l'
+  end.
+
 Fixpoint corr_run (e : engine) (evs : list event) (os : list obs) : bool :=
   match evs, os with
   | [], [] => true
@@ -75,6 +88,7 @@ Fixpoint corr_run (e : engine) (evs : list event) (os : list obs) : bool :=
       entries_eqb (exchanges (econn e')) (o_links o) &&
       out_matches ev (snd (process e ev)) (o_out o) &&
       list_eqb N.eqb (skipn (length (calls e)) (calls e')) (o_calls o) &&
+      rt_matches (global (econn e')) (exchanges (econn e')) (o_rt o) &&
       corr_run e' evs' os'
   | _, _ => false
   end.
@@ -156,6 +170,8 @@ Fixpoint prop_run (ids : list N) (from_init : bool) (hist : list event) (prev : 
       let hist' := hist ++ [ev] in
       obs_ok ids prev ev o &&
       (if from_init then links_follow_spec ids hist' o else true) &&
+      (* a persist / restore step between two events changes nothing *)
+      rt_matches (o_global o) (o_links o) (o_rt o) &&
       prop_run ids from_init hist' (o_links o) evs' os'
   | _, _ => false
   end.
